@@ -316,6 +316,21 @@ def graph_cases(res, drv, rng, graphs):
         elif tu.stab_canon(ct) != want:
             res.violation("get_clifford_tableau_from_graph:wrong-state", "the tableau does not represent the graph state", input=inp, impl=tu.tab_args(ct))
         st = rc.get_stabilizer_tableau_from_graph(g)
+        # the theorems `C11.clifford_tableau_from_graph_exact` / `inverse_circuit_on_graph_state` pin the model's output on simple
+        # graphs down completely: destabilizers Z_i, stabilizers X_i Z_N(i), all signs +, from the circuit "CZ per edge j<k, then H
+        # on every qubit".  The implementation must agree (a correspondence matter, not the property: the property only asks for
+        # *a* valid tableau of the graph state)
+        if not any(adj[i, i] for i in range(n)):
+            t_exp = np.block([[np.zeros((n, n), dtype=int), np.eye(n, dtype=int)], [np.eye(n, dtype=int), adj]])
+            if tu.is_binary(ct) and (not np.array_equal(np.asarray(ct.table).astype(int), t_exp) or np.any(ct.phase)):
+                res.exact_break("graph:textbook-tableau", input=inp, impl=tu.tab_args(ct), model="[Z_i | X_i Z_N(i)], signs +")
+            from graphiq.backends.stabilizer.functions import stabilizer as sfs_g
+
+            _, circ_g = sfs_g.inverse_circuit(st.copy())
+            circ_g = [tuple(int(a) if not isinstance(a, str) else a for a in x) for x in circ_g]
+            circ_exp = [("CZ", j, k) for j in range(n) for k in range(j + 1, n) if adj[j, k]] + [("H", j) for j in range(n)]
+            if circ_g != circ_exp:
+                res.exact_break("graph:textbook-circuit", input=inp, impl=su.circ_token(circ_g), model=su.circ_token(circ_exp))
         lines.append(f"stab.cliff {su.stab_args(st)}")
         items.append((inp, ct))
         res.nontrivial("graph", tuple(inp["graph_edges"]), n)
